@@ -174,8 +174,9 @@ def unhandled_segments(sx):
     with patched_time(loop):
         u = consumers["GeckoUnhandledProtocolHandler"]
         n0 = sx.choice("queued", 3)
+        same = bool(sx.choice("byte_identical_datagrams", 2))    # a duplicated frame, a repeated RFERR
         for i in range(n0):
-            proto.datagram_received(b"ITEM%d" % i, PARMS)
+            proto.datagram_received(b"SAME" if same else b"ITEM%d" % i, PARMS)
         t = loop.create_task(u.consume(proto))
         loop.step()                       # segment A
         size_a = proto.queue.qsize()
@@ -187,10 +188,12 @@ def unhandled_segments(sx):
         if k in (1, 3) and proto.queue.qsize():
             proto.queue.pop()                  # a capable consumer took the head
         if k in (2, 3):
-            proto.datagram_received(b"LATER", PARMS)
+            proto.datagram_received(b"SAME" if same else b"LATER", PARMS)
         head_b = proto.queue.head
         size_b = proto.queue.qsize()
-        still = proto.queue.is_marked
+        # independent of the queue's own bookkeeping: the mark survives iff something was marked and nobody took it
+        still = n0 > 0 and k in (0, 2)
+        sx.check(proto.queue.is_marked == still, "unh.mark-cleared-exactly-by-a-pop")
         loop.step()                            # the clock advances to t = 0.1 and segment B runs
         popped = size_b - proto.queue.qsize()
         sx.observe("popped", popped)
@@ -323,6 +326,9 @@ def head_age(sx):
             proto.datagram_received(d, PARMS)
         if sx.choice("initial", 2):
             put()
+        if sx.choice("request_in_flight", 2):
+            # a get() waiter holds the connection for the whole run (and takes nothing: its reply never comes)
+            loop.run_until_complete(proto.Lock.acquire(), max_time=1.0)
         loop.create_task(u.consume(proto))
         worst = 0.0
         cur = [None, 0.0]          # (datagram at the head, since when)
